@@ -437,13 +437,43 @@ def conservation_oracle(h, model, phys, viol, stats, kind, tag="C02"):
                 viol.append({"oracle": tag + ".conserved", "detail":
                              "combination %s drifts by %r (scale %r) over %d samples of an Euler run" % (c, dev, scale, n)})
                 return
-        else:
+        elif np.all(rx == np.floor(rx)):
             if np.any(series != series[0]):
                 k = int(np.argmax(series != series[0]))
                 viol.append({"oracle": tag + ".conserved", "detail":
                              "combination %s has total %r in sample 0 and %r in sample %d of a %s run" % (
                                  c, float(series[0]), float(series[k]), k, kind)})
                 return
+        else:
+            # fractional amounts handed to a molecule-moving engine untouched ('none'): whole molecules move, x +- 1 may
+            # round in the last place when it crosses a power of two, hence a rounding tolerance
+            stats["conservation_series_fractional"] = stats.get("conservation_series_fractional", 0) + 1
+            scale = float((np.abs(rx).sum(axis=2) @ np.abs(cv)).max())
+            dev = float(np.abs(series - series[0]).max())
+            if dev > 1e-9 * scale + 1e-300:
+                viol.append({"oracle": tag + ".conserved", "detail":
+                             "combination %s drifts by %r (scale %r) over %d samples of a %s run" % (c, dev, scale, n, kind)})
+                return
+    # the samples the caller receives (trajectory.data, script units): the same totals, to rounding of the unit conversion
+    try:
+        data = np.frombuffer(out["data"], dtype=np.float64).reshape(n, ns, nc)
+    except Exception:
+        return
+    if not np.all(np.isfinite(data)):
+        return
+    totd = data.sum(axis=2)
+    for c in vecs:
+        cv = np.array(c, dtype=float)
+        series = totd @ cv
+        scale = float((np.abs(data).sum(axis=2) @ np.abs(cv)).max())
+        dev = float(np.abs(series - series[0]).max())
+        stats["conservation_series_in_trajectory_data"] = stats.get("conservation_series_in_trajectory_data", 0) + 1
+        if dev > 1e-9 * scale + 1e-300:
+            k = int(np.argmax(np.abs(series - series[0])))
+            viol.append({"oracle": tag + ".conserved", "detail":
+                         "trajectory.data: combination %s has total %r in sample 0 and %r in sample %d of a %s run (scale %r)" % (
+                             c, float(series[0]), float(series[k]), k, kind, scale)})
+            return
 
 
 def chemostat_oracle(h, model, viol, stats, tag="C03"):
